@@ -24,8 +24,11 @@ func (p *pathRun) materialize(fr *frame, ab *absBytes) []value {
 	if ab.mat != nil {
 		return ab.mat
 	}
-	l := p.byteLen(ab.t).(symInt)
-	n := int(p.concretize(fr, l, "length of an abstract byte string"))
+	n := p.knownByteLen(ab.t)
+	if n < 0 {
+		l := p.byteLen(ab.t).(symInt)
+		n = int(p.concretize(fr, l, "length of an abstract byte string"))
+	}
 	if n > 80 {
 		panic(unsupported(fmt.Sprintf("abstract byte string of length %d", n)))
 	}
@@ -149,7 +152,7 @@ func (p *pathRun) structNonNeg(t *smt.Term, depth int) bool {
 	switch t.Op {
 	case "const":
 		return t.Sort == smt.Int && t.Val.Sign() >= 0
-	case "abs":
+	case "abs", "bv2nat":
 		return true
 	case "mod":
 		return t.Args[1].IsConst() && t.Args[1].Val.Sign() > 0
